@@ -12,7 +12,7 @@ use serde_json::json;
 pub static SPEC: PropSpec = PropSpec {
     id: "C08",
     level: "exploration",
-    rule: "tests: closure body shape (14: a captured dyn value used only as dyn-call receiver, arithmetic, if, int / string / tuple / enum matches with the captured variable in one arm only - including only the default arm -, capture through an inner closure only, shadowing inside the body, loops, Ref reads and updates, calling a captured function value, struct field of a captured struct) x capture kind (8: parameter, shadowed let, tuple-pattern variable, match-arm variable, outer closure parameter, value read from a Ref, the Ref cell itself, top-level function value) x flow (6: direct call, returned from a function - directly, in a flat tuple, nested in tuples on the left / right, in a field of a generic struct instantiated at the function type, in a field of a plain struct taken out by a struct pattern; the helper named plainly, with a trailing `_`, with `__` inside, or an inherent method called in path and dot form -, two closures sharing a Ref returned in a tuple, captured by another closure, created and called in a loop, nested three deep); exhaustive over the product, packed 24 tests per program; in every other cell whose body does not mention it, the closure parameter is named like the enclosing function's parameter `a`; plus random closure-heavy programs. non-trivial: all tests; distinct by (shape, capture, flow)",
+    rule: "tests: closure body shape (14: a captured dyn value used only as dyn-call receiver, arithmetic, if, int / string / tuple / enum matches with the captured variable in one arm only - including only the default arm -, capture through an inner closure only, shadowing inside the body, loops, Ref reads and updates, calling a captured function value, struct field of a captured struct) x capture kind (8: parameter, shadowed let, tuple-pattern variable, match-arm variable, outer closure parameter, value read from a Ref, the Ref cell itself, top-level function value) x flow (6: direct call, returned from a function - directly, in a flat tuple, nested in tuples on the left / right, in a field of a generic struct instantiated at the function type, in a field of a plain struct taken out by a struct pattern, in one of two function-typed fields of a struct whose other one holds a plain function value; the helper named plainly, with a trailing `_`, with `__` inside, or an inherent method called in path and dot form -, two closures sharing a Ref returned in a tuple, captured by another closure, created and called in a loop, nested three deep); exhaustive over the product, packed 24 tests per program; in every other cell whose body does not mention it, the closure parameter is named like the enclosing function's parameter `a`; plus random closure-heavy programs. non-trivial: all tests; distinct by (shape, capture, flow)",
     eval_counter: "tests",
     assumptions: &["closure values flowing into function-typed parameters / struct fields / heterogeneous branches are outside the clean lattice (recorded C02 finding); relative to refsem and gomini"],
     crash_is_violation: false,
@@ -246,7 +246,24 @@ fn test(k: usize, shape: usize, cap: usize, flow: usize) -> Vec<FnDecl> {
         let pv = |n: &str| Pat::Var(n.into());
         let slot_ty = Ty::Struct(format!("Slot{}", k), vec![fty.clone()]);
         let hold_ty = Ty::Struct(format!("Hold{}", k), vec![]);
-        let (ret, result, bind, use_e): (Ty, Expr, Stmt, Expr) = match shape % 6 {
+        let duo_ty = Ty::Struct(format!("Duo{}", k), vec![]);
+        let (ret, result, bind, use_e): (Ty, Expr, Stmt, Expr) = match (shape + cap + flow + k) % 8 {
+            // a struct with TWO function-typed fields, one holding a plain function value and one the closure (either
+            // order, an int field between them); both are taken out by field access and called
+            6 | 7 => {
+                let closure_first = (shape + cap + flow + k) % 8 == 7;
+                let (fa, fb) = if closure_first { (the_closure, Expr::FnRef("dblr".into())) } else { (Expr::FnRef("dblr".into()), the_closure) };
+                let (ca, cb) = if closure_first { ("pre", "post") } else { ("post", "pre") };
+                (
+                    duo_ty.clone(),
+                    Expr::StructLit { name: format!("Duo{}", k), ty: duo_ty.clone(), fields: vec![("pre".into(), fa), ("tag".into(), add(var("a"), i(1))), ("post".into(), fb)] },
+                    Stmt::Let(Pat::Var("duo".into()), Some(duo_ty.clone()), call_mk),
+                    blk(
+                        vec![let_("f", Expr::Field(Box::new(var("duo")), ca.into())), let_("g", Expr::Field(Box::new(var("duo")), cb.into()))],
+                        add(add(add(callv(var("f"), vec![i(2)]), callv(var("f"), vec![i(0)])), callv(var("g"), vec![i(5)])), Expr::Field(Box::new(var("duo")), "tag".into())),
+                    ),
+                )
+            }
             // stored in the field of a generic struct instantiated at the function type, read back by field access
             4 => (
                 slot_ty.clone(),
@@ -301,6 +318,7 @@ pub fn program(tests: &[(usize, usize, usize)]) -> Program {
     for k in 0..tests.len() {
         prog.items.push(Item::Struct(StructDecl { name: format!("Slot{}", k), tparams: vec!["T".into()], fields: vec![("value".into(), Ty::Param("T".into())), ("extra".into(), I32)], derives: vec![] }));
         prog.items.push(Item::Struct(StructDecl { name: format!("Hold{}", k), tparams: vec![], fields: vec![("h".into(), Ty::Func(vec![I32], Box::new(I32))), ("n".into(), I32)], derives: vec![] }));
+        prog.items.push(Item::Struct(StructDecl { name: format!("Duo{}", k), tparams: vec![], fields: vec![("pre".into(), Ty::Func(vec![I32], Box::new(I32))), ("tag".into(), I32), ("post".into(), Ty::Func(vec![I32], Box::new(I32)))], derives: vec![] }));
     }
     prog.items.push(Item::Trait(TraitDecl { name: "Dv".into(), methods: vec![MethodSig { name: "val".into(), extra: vec![I32], ret: I32 }] }));
     prog.items.push(Item::Struct(StructDecl { name: "Dw".into(), tparams: vec![], fields: vec![("w".into(), I32)], derives: vec![] }));
